@@ -137,6 +137,7 @@ def run(ctx, ck) -> None:
         elif stored not in (('const', 'True'), ('const', 'False'), ('var', 'unique_indices')):
             ok_u = False
             why = f'unique_indices stored as {show(stored)}'
+    flag_kind_invariant(ck, table, 'X3')
     ck.expect('X3', ok_u and found_true >= 1, init, 'unique_indices is forced true only when every index is an int, a slice, an ellipsis or a boolean array; otherwise it is the caller\'s promise or False',
               f'the uniqueness flag can be true for indices that may repeat: {why}', instance='uniqueness flag')
 
@@ -185,6 +186,39 @@ def run(ctx, ck) -> None:
         fields = [f.name for f in table.fields(kind)]
         good = isinstance(letters, ast.Constant) and [c.lower() for c in letters.value] == fields
         ck.expect('X6', good, kind.node, f'fields {fields} are the lower-cased letters of stokes, in order', f'{kind.name}: fields {fields} vs stokes {ast.unparse(letters) if letters is not None else "?"}', instance=f'{kind.name} fields', nontrivial=False)
+
+
+def flag_kind_invariant(ck, table, rule: str) -> None:
+    """IndexOperator.__init__: a flag that may be false is stored only when some entry is an integer array.
+
+    TransposeIndexRule reads `unique_indices` being false as "the single indexed entry is an integer array whose
+    values may repeat" and hands that entry to jnp.unique; an int, a slice or a boolean mask there raises or is
+    read as positions 0/1.  The constructor is the only writer of the flag, so the invariant is decided on its paths.
+    """
+    index = table.by_name('IndexOperator')
+    init = index.own.get('__init__')
+    if not isinstance(init, ast.FunctionDef):
+        ck.incomplete(rule, index.node, 'IndexOperator.__init__ vanished', instance='flag implies integer array')
+        return
+    bad = ''
+    n = 0
+    for p in function_paths(init):
+        if p.exit == 'raise':
+            continue
+        stored = None
+        for st in p.stmts():
+            if isinstance(st, ast.Assign) and any(isinstance(tg, ast.Attribute) and tg.attr == 'unique_indices' for tg in st.targets):
+                stored = term(st.value, path_env(p, upto=st))
+        if stored is None or stored == ('const', 'True'):
+            continue
+        n += 1
+        conds = [(term(ev[1]), ev[2]) for ev in p.events if ev[0] == 'cond']
+        kinds = [c for c in conds if c[0][0] == 'call' and c[0][1] == ('var', 'all') and 'isinstance' in show(c[0])]
+        if not any(pol is False for _, pol in kinds):
+            bad = f'a path stores {show(stored)} without having established that some entry is neither an int, a slice, an ellipsis nor a boolean mask'
+    ck.expect(rule, not bad and n >= 1, init, f'on the {n} paths that store a possibly false flag, the kind test over the entries is known to have failed: a false flag implies an integer-array entry',
+              f'the uniqueness flag can be false for int/slice/boolean-mask entries ({bad}); TransposeIndexRule takes a false flag as licence to pass the entry to jnp.unique',
+              instance='false flag implies integer array')
 
 
 def controls(world: World) -> list[Control]:
